@@ -571,7 +571,24 @@ struct VM : VMBase
       size_t slot = static_cast<size_t>(op.v[0]);
       if (slot < slots.size() && slots[slot].valid)
       {
-        break; // already exists
+        // already exists: creating it again is a lookup that must return the same object
+        Slot& es = slots[slot];
+        std::vector<std::shared_ptr<quill::Sink>> ss;
+        for (size_t i = 0; i < sinks.size(); ++i)
+        {
+          if (((es.sink_mask >> i) & 1) && sinks[i])
+          {
+            ss.push_back(sinks[i]);
+          }
+        }
+        if (ss.empty())
+        {
+          break;
+        }
+        Lg* again = Fe::create_or_get_logger(es.name, std::move(ss), quill::PatternFormatterOptions{logger_pattern(static_cast<int>(slot))},
+                                             quill::ClockSourceType::System, nullptr);
+        record(EV_GET_LOGGER, static_cast<int64_t>(slot), again != nullptr, again == es.lg);
+        break;
       }
       int gen = slot < slots.size() ? slots[slot].generation + 1 : 1;
       record(EV_CREATE_LOGGER, op.v[0], op.v[1], 0, gen);
@@ -604,11 +621,14 @@ struct VM : VMBase
       {
         Fe::remove_logger(lg);
       }
-      Ev& e = record(EV_REMOVE_LOGGER, slot_index, blocking, 1, s->generation);
+      // (no reference into the history may be held across a quill call: other threads append to it)
+      std::string after;
       if (blocking)
       {
-        e.s = Fe::get_logger(s->name) == nullptr ? "gone" : "present";
+        after = Fe::get_logger(s->name) == nullptr ? "gone" : "present";
       }
+      Ev& e = record(EV_REMOVE_LOGGER, slot_index, blocking, 1, s->generation);
+      e.s = after;
       break;
     }
     case OP_GET_LOGGER:
